@@ -96,6 +96,10 @@ def _topic_ok(topic, f, leaves):
         return True
     text = _failure_text(f, leaves)
     acct = bool(_ACCT.search(text))
+    if topic == "taint":
+        # only failures that invalidate the whole function (here: the assertions spliced into it); used where a
+        # property owns one asserted fact of a function whose postconditions belong to others
+        return False
     if topic == "acct":
         return acct
     if topic == "sem":
